@@ -154,7 +154,11 @@ class Typedef(_Serializable):
     @property
     def lowermost_typedef(self):
         lowermost = self.definition
+        visited = []
         while isinstance(lowermost, Typedef):
+            if any(lowermost is seen for seen in visited):
+                raise ModelError("Typedef '%s' is defined through itself." % self.name)
+            visited.append(lowermost)
             lowermost = lowermost.definition
         return lowermost
 
